@@ -198,3 +198,16 @@ Proof. induction p as [|c p IH]; [reflexivity|]. cbn [app strip_prefix]. rewrite
 
 Lemma andb_prop_l a b : a && b = true -> a = true. Proof. intros H. apply andb_true_iff in H. tauto. Qed.
 Lemma andb_prop_r a b : a && b = true -> b = true. Proof. intros H. apply andb_true_iff in H. tauto. Qed.
+
+Lemma split_once_none_memb d s : split_once d s = None -> memb d s = false.
+Proof.
+  induction s as [|c r IH]; [reflexivity|]. cbn [split_once]. destruct (c =? d) eqn:E; [discriminate|].
+  destruct (split_once d r) as [[a b]|]; [discriminate|]. intros _. cbn [memb existsb].
+  rewrite Z.eqb_sym, E. apply IH. reflexivity.
+Qed.
+
+Lemma str_eqb_comm a : forall b, str_eqb a b = str_eqb b a.
+Proof.
+  induction a as [|x a IH]; intros [|y b]; try reflexivity.
+  cbn [str_eqb]. rewrite Z.eqb_sym, IH. reflexivity.
+Qed.
